@@ -39,6 +39,27 @@ theorem reuse_history {S O : Type} (rd : Reader S) (obs : S → O) (h : Resets r
   have := h fresh (readAll rd fresh hist) good hgood
   exact ⟨this.1, this.2.symm⟩
 
+/-! ### the layout readers
+
+    A `Read` method transcribed into the layout IR assigns the fields its layout names, in wire order
+    (`Layout.L.read` returns exactly that list).  Seen through the fields it assigns, the object after a
+    successful `Read` is that list whatever the object held before; after a failed `Read` it is anything
+    (`junk`).  What this observation does NOT show: fields the reader never assigns, and entries a reader
+    `Put`s into a table it does not replace — the additive readers of tie A. -/
+
+def fieldReader {F : Type} (read : Bytes → Option F) (junk : Option F → Bytes → Option F) : Reader (Option F) :=
+  fun s bs => match read bs with
+    | some o => (some o, true)
+    | none => (junk s bs, false)
+
+theorem fieldReader_resets {F : Type} (read : Bytes → Option F) (junk : Option F → Bytes → Option F) :
+    Resets (fieldReader read junk) id := by
+  intro s s' bs h
+  unfold fieldReader at h ⊢
+  cases hr : read bs with
+  | none => rw [hr] at h; simp at h
+  | some o => simp
+
 /-! ### two shapes of readers -/
 
 /-- a reader that assigns its fields from the input (`this.f = in.Read…()`), here: two bytes into two
